@@ -1,5 +1,5 @@
 #!/bin/bash
-# tools/seed_try.sh <dir with patch.diff [demo.py]> <PROP> [tier]
+# tools/seed_try.sh <dir with patch.diff [demo.py]> <PROP> [tier] ["test files to run on the seeded tree"]
 # Applies a seeded change to a scratch worktree of /repo HEAD, checks that the demo fails there
 # (and passes on /repo), runs ./check PROP against the scratch tree, removes the worktree.
 # (While builders are working in parallel we do not patch /repo itself; VERIF_REPO is equivalent.)
@@ -11,6 +11,9 @@ git -C "$W" apply "$D/patch.diff" || { echo "PATCH DOES NOT APPLY"; exit 2; }
 if [ -f "$D/demo.py" ]; then
   (cd /tmp && PYTHONPATH=/repo /venv/bin/python "$D/demo.py" >/dev/null 2>&1); echo "demo on /repo: exit $? (want 0)"
   (cd /tmp && PYTHONPATH="$W" /venv/bin/python "$D/demo.py" >/dev/null 2>&1); echo "demo on seeded: exit $? (want != 0)"
+fi
+if [ -n "$4" ]; then
+  (cd "$W" && /venv/bin/python -m pytest -q -p no:cacheprovider $4 2>&1 | tail -1 | sed 's/^/tests on seeded: /')
 fi
 cd /verif && cp -f evidence/$P.json /tmp/ev-$P-$$.json 2>/dev/null
 VERIF_REPO="$W" ./check "$P" --tier "$T" 2>&1 | grep -E "VIOLATION|KNOWN-FINDING|^$P:" | head -5
